@@ -194,3 +194,45 @@ fn c18_nested_sload_results_double() {
     }
     println!("CASES c18_nested_sload {cases}");
 }
+
+/// culling happens ONLY above the configured limit: a value that a run without any limit builds with N nodes is built with
+/// the same N nodes under every limit >= N (limits above the default 250 included), whichever instruction builds it —
+/// arithmetic, SLOAD of a stored big value, MLOAD, SHA3, a storage write
+#[test]
+fn c18_values_within_the_configured_limit_are_not_culled() {
+    use storage_layout_extractor::{disassembly::InstructionStream, vm::{Config, VM}, watchdog::LazyWatchdog};
+    // CALLER squared k times, then stored to slot 0, loaded back, stored to slot 1 / hashed / moved through memory
+    let prog = |k: usize, tail: &[u8]| -> Vec<u8> { let mut c = vec![0x33]; for _ in 0..k { c.extend([0x80, 0x02]); } c.extend(tail); c };
+    let tails: Vec<(&str, Vec<u8>)> = vec![
+        ("sstore(0, v); sstore(1, sload(0))", vec![0x5f, 0x55, 0x5f, 0x54, 0x60, 0x01, 0x55, 0x00]),
+        ("mstore(0, v); sstore(1, mload(0))", vec![0x5f, 0x52, 0x5f, 0x51, 0x60, 0x01, 0x55, 0x00]),
+        ("sstore(1, v + 1)", vec![0x60, 0x01, 0x01, 0x60, 0x01, 0x55, 0x00]),
+        ("mstore(0, v); sstore(1, keccak(0, 32))", vec![0x5f, 0x52, 0x60, 0x20, 0x5f, 0x20, 0x60, 0x01, 0x55, 0x00]),
+    ];
+    let written_to_slot_1 = |code: &[u8], limit: usize| -> Option<usize> {
+        let is = InstructionStream::try_from(code).ok()?;
+        let mut vm = VM::new(is, Config::default().with_value_size_limit(limit), LazyWatchdog.in_rc()).ok()?;
+        let _ = vm.execute();
+        let res = vm.consume();
+        res.all_values().iter().filter_map(|v| match v.data() {
+            RSVD::StorageWrite { key, value } if matches!(key.data(), RSVD::KnownData { value: k } if k.value_le() == ethnum::U256::ONE) => Some(count(value)),
+            _ => None,
+        }).max()
+    };
+    let mut cases = 0;
+    for k in [3usize, 6, 7] {
+        for (tname, tail) in &tails {
+            let code = prog(k, tail);
+            let Some(n) = written_to_slot_1(&code, usize::MAX / 4) else { continue };
+            for limit in [n + 4, 257, 300, 1000, 100_000] {
+                if limit < n + 4 { continue; }
+                cases += 1;
+                let got = written_to_slot_1(&code, limit);
+                if got != Some(n) {
+                    witness("C18", "vs.culled_only_above_the_configured_limit", format!("caller squared {k} times; {tname}: {code:02x?} limit={limit}"), format!("the value written to slot 1 has {got:?} nodes"), format!("{n} nodes, as without a limit (it is within the limit)"));
+                }
+            }
+        }
+    }
+    println!("CASES c18_not_culled_within_limit {cases}");
+}
